@@ -106,6 +106,7 @@ class Result:
         self.assumptions = []
         self.notes = {}
         self.exhaustive = None
+        self.requirements = {}
 
     # -- observation bookkeeping -------------------------------------------------------------
     def case(self, key, nontrivial=True, n=1):
@@ -132,9 +133,14 @@ class Result:
             self.violations.append(Violation(key, what, case))
 
     def require(self, name, minimum=1):
-        """A monitor/situation class that must have been observed; otherwise the run is inconclusive."""
-        if self.counters.get(name, 0) < minimum:
-            self.inconclusive.append(f'{name}<{minimum} (observed {self.counters.get(name, 0)})')
+        """A monitor/situation class that must have been observed (summed over all shards); otherwise the run is
+        inconclusive.  Evaluated after the shards are merged."""
+        self.requirements[name] = max(minimum, self.requirements.get(name, 0))
+
+    def evaluate_requirements(self):
+        for name, minimum in sorted(self.requirements.items()):
+            if self.counters.get(name, 0) < minimum:
+                self.inconclusive.append(f'{name}<{minimum} (observed {self.counters.get(name, 0)})')
 
     # -- shard transport ---------------------------------------------------------------------
     def to_json(self):
@@ -143,6 +149,7 @@ class Result:
             'digest_overflow': self.digest_overflow, 'samples': self.samples,
             'violations': [v.to_json() for v in self.violations], 'inconclusive': self.inconclusive,
             'assumptions': self.assumptions, 'notes': jsonable(self.notes), 'exhaustive': self.exhaustive,
+            'requirements': self.requirements,
         }
 
     @classmethod
@@ -157,6 +164,7 @@ class Result:
         r.assumptions = d['assumptions']
         r.notes = d['notes']
         r.exhaustive = d['exhaustive']
+        r.requirements = d.get('requirements', {})
         return r
 
     def merge(self, other):
@@ -168,6 +176,8 @@ class Result:
                 self.samples.append(s)
         self.violations.extend(other.violations)
         self.inconclusive.extend(other.inconclusive)
+        for k, v in other.requirements.items():
+            self.requirements[k] = max(v, self.requirements.get(k, 0))
         for a in other.assumptions:
             if a not in self.assumptions:
                 self.assumptions.append(a)
